@@ -363,7 +363,9 @@ def rule_r3(p, res):
     # label order: list on export, ordered mapping on import
     lt = tj[2]
     comp = [n for n in walk_own(lt.node) if isinstance(n, ast.ListComp)]
-    r.check(any(norm(c.generators[0].iter) == "self._labels_to_masks.items()" for c in comp), lt, lt.node, "labels must be exported as a list in the group's own label order")
+    loops = [n for n in walk_own(lt.node) if isinstance(n, ast.For) and norm(n.iter) == "self._labels_to_masks.items()"
+             and any(isinstance(k, ast.Call) and isinstance(k.func, ast.Attribute) and k.func.attr == "append" for k in ast.walk(n))]
+    r.check(any(norm(c.generators[0].iter) == "self._labels_to_masks.items()" for c in comp) or bool(loops), lt, lt.node, "labels must be exported as a list in the group's own label order")
     r.check(any(kwarg(c, "object_pairs_hook") is not None and norm(kwarg(c, "object_pairs_hook")) == "OrderedDict" for c in calls_in(im.node)), im, im.node,
             "the importer must load JSON objects as ordered mappings")
     d = Defs(pr.node)
@@ -402,7 +404,18 @@ def rule_r3(p, res):
                 loops.append(n)
     r.check(bool(loops), pr, pr.node, "labels must be parsed in list order")
     # the mask indices written are the ones set on import
-    r.check("mask.nonzero()[0].tolist()" in norm(lt.node), lt, lt.node, "a label's mask must be exported as the list of its point indices")
+    dl = Defs(lt.node)
+    mask_vals = [v for n in ast.walk(lt.node) if isinstance(n, ast.Dict) for k_, v in zip(n.keys, n.values) if isinstance(k_, ast.Constant) and k_.value == "mask"]
+    maskvars = {nm for nm, ds in dl.defs.items() if any(kd in ("for-unpack", "comp-unpack", "for", "comp") for kd, _v, _s in ds)}
+
+    def indices_of_mask(v):
+        e = expand(v, dl)
+        t = norm(e)
+        m_ = __import__("re").fullmatch(r"(\w+)\.nonzero\(\)\[0\]\.tolist\(\)|np\.nonzero\((\w+)\)\[0\]\.tolist\(\)|np\.flatnonzero\((\w+)\)\.tolist\(\)", t)
+        return bool(m_) and (m_.group(1) or m_.group(2) or m_.group(3)) in maskvars
+
+    r.check("mask.nonzero()[0].tolist()" in norm(lt.node) or (bool(mask_vals) and all(indices_of_mask(v) for v in mask_vals)), lt, lt.node,
+            "a label's mask must be exported as the list of its point indices")
     closure_text = norm(pr.node) + "".join("\n" + norm(h.node) for h, _k in helpers_of_pr)
     r.check("mask[label['mask']] = True" in closure_text, pr, pr.node, "a parsed label must switch on exactly the listed indices")
     # edges: exported from .edges, imported through init_from_edges
@@ -438,15 +451,33 @@ def rule_r4(p, res):
     r.instance(nf)
     r.instance(df)
 
-    def ranges(f, var):
+    def ranges(f, var, _depth=0):
+        """{dtype name: constant} -- the constants bound (or, in a helper the function calls with that variable, returned)
+        under `<var> == np.<dtype>`"""
         g_ = cfgmod.build(f.node)
         out = {}
         for n in walk_own(f.node):
-            if isinstance(n, ast.Assign) and norm(n.targets[0]) == "max_range":
-                for t, pol in g_.guards(n):
-                    s = norm(t)
-                    if pol and s.startswith(var + " == np."):
-                        out[s.split("np.")[1]] = const_value(n.value)
+            val = None
+            if isinstance(n, ast.Assign) and len(n.targets) == 1 and isinstance(n.targets[0], ast.Name):
+                val = n.value
+            elif isinstance(n, ast.Return) and _depth:
+                val = n.value
+            if val is None or const_value(val) is None:
+                continue
+            for t, pol in g_.guards(n):
+                s = norm(t)
+                if pol and s.startswith(var + " == np."):
+                    out[s.split("np.")[1]] = const_value(val)
+        if not out and _depth == 0:
+            ctx = CallCtx(p, f, f.cls)
+            for k in calls_in(f.node):
+                if any(isinstance(a_, ast.Name) and a_.id == var for a_ in k.args):
+                    for t in ctx.resolve_call(k):
+                        h = t.func
+                        if h.module is f.module and h.cls is None and h.params:
+                            pos = [i for i, a_ in enumerate(k.args) if isinstance(a_, ast.Name) and a_.id == var][0]
+                            if pos < len(h.params):
+                                out.update(ranges(h, h.params[pos], 1))
         return out
 
     rn, rd = ranges(nf, "dtype"), ranges(df, "out_dtype")
@@ -469,7 +500,7 @@ def rule_r5(p, res):
         v = ret.value
         if isinstance(v, ast.Call) and isinstance(v.func, ast.Attribute) and v.func.attr == "astype":
             base = v.func.value
-            scaled = "max_range" in {x.id for x in ast.walk(base) if isinstance(x, ast.Name)}
+            scaled = "max_range" in {x.id for x in ast.walk(base) if isinstance(x, ast.Name)} or any(isinstance(x, ast.BinOp) and isinstance(x.op, ast.Mult) for x in ast.walk(expand(base, d)))
             if not scaled:
                 continue  # float -> float
             n += 1
